@@ -376,13 +376,21 @@ Definition push (st : rstk) (s r : N) (pend : list bool) : rstk :=
   bump (mk st (fresh st s r pend :: frames st) (flight st) (exc st)
            (if flight st then extra st + 1 else 0) (stale st)).
 
+Fixpoint bools_eqb (a b : list bool) : bool :=
+  match a, b with
+  | [], [] => true
+  | x :: a', y :: b' => Bool.eqb x y && bools_eqb a' b'
+  | _, _ => false
+  end.
+Definition frame_eqb (x y : rframe) : bool :=
+  (f_id x =? f_id y) && (f_slot x =? f_slot y) && (f_ra x =? f_ra y) && bools_eqb (f_pend x) (f_pend y).
 Fixpoint frames_eqb (a b : list rframe) : bool :=
   match a, b with
   | [], [] => true
-  | x :: a', y :: b' => (f_id x =? f_id y) && frames_eqb a' b'
+  | x :: a', y :: b' => frame_eqb x y && frames_eqb a' b'
   | _, _ => false
   end.
-(* is `saved` a suffix of `cur` (same frame ids)? *)
+(* is `saved` a suffix of `cur` (the very same frames: ids are never re-used)? *)
 Fixpoint is_suffix (saved cur : list rframe) : bool :=
   frames_eqb saved cur ||
   match cur with [] => false | _ :: c' => is_suffix saved c' end.
